@@ -100,6 +100,23 @@ def run(prop, tier, seed):
               keyfn=lambda e, what: "%s|%s" % (prop, e["s"]))
         c.evaluations += len(sev)
         c.extra["spelling_sample"] = len(sev)
+        # 4. beyond the property: the intermediate quantities the library exposes (effective values and macro vector of v4, impact /
+        #    exploitability sub-scores of v3, impact equations of v2, value descriptions) against Internals.tla; disagreements are
+        #    notes (the property is about the scores), but they show *where* a score goes wrong
+        iitems = [dict(it, op="internals") for it in items[::(3 if tier == "quick" else 1)]]
+        iev = record_events(iitems, work, name="internals")
+        ip = os.path.join(work, "internals.json")
+        json.dump(iev, open(ip, "w"), separators=(",", ":"))
+        r = tlc_or_die("TraceInternals", cfg="TraceInternals.cfg", env={"TRACE_FILE": ip}, timeout=7200)
+        c.add_tlc("TraceInternals: %d vectors, intermediate quantities against Internals.tla (beyond the property)" % len(iev), r)
+        if r.distinct != 2 * len(iev):
+            raise MachineryError("TraceInternals judged %d of %d events" % (r.distinct // 2, len(iev)))
+        ifails = [l for l in r.lines if l.startswith("FAIL ")]
+        c.extra["beyond_property_internals_events"] = len(iev)
+        c.extra["beyond_property_internals_mismatches"] = len(ifails)
+        for l in ifails[:3]:
+            print("NOTE (beyond %s, not a violation): intermediate quantity differs from Internals.tla: %s on %s" % (prop, l, iev[int(l.split()[1]) - 1]["s"][:160]))
+        os.remove(ip)
         c.traces += rows_total
         c.nontrivial = total + len(set(e["s"] for e in sev))
         c.exhaustive = (tier == "thorough")
